@@ -450,22 +450,40 @@ func (w *world) textCalls(chain []winSpec, s string, name string) {
 		if (h == "PrintTruncate" || h == "Println") && strings.Contains(s, "\n") {
 			continue // a line feed inside a single-line helper is not defined by the property
 		}
-		for _, rowArg := range rows {
+		// the same text as one segment and as one segment per cluster: a
+		// helper must not treat a segment boundary as a fresh start
+		forms := 1
+		if len(in) >= 2 && h != "PrintTruncate" {
+			forms = 2
+		}
+		for fi := 0; fi < forms*len(rows); fi++ {
+			rowArg := rows[fi%len(rows)]
 			w.resetScreen()
 			win, ox, oy, clip, _ := w.build(chain)
-			seg := vaxis.Segment{Text: s}
+			segs := []vaxis.Segment{{Text: s}}
 			call := fmt.Sprintf("%s(%s)", h, name)
+			if fi >= len(rows) {
+				segs = nil
+				for _, ru := range s {
+					if ru == 0x301 && len(segs) > 0 {
+						segs[len(segs)-1].Text += string(ru)
+						continue
+					}
+					segs = append(segs, vaxis.Segment{Text: string(ru)})
+				}
+				call = fmt.Sprintf("%s(%s as %d segments)", h, name, len(segs))
+			}
 			switch h {
 			case "Print":
-				win.Print(seg)
+				win.Print(segs...)
 			case "Wrap":
-				win.Wrap(seg)
+				win.Wrap(segs...)
 			case "PrintTruncate":
-				win.PrintTruncate(rowArg, seg)
+				win.PrintTruncate(rowArg, segs[0])
 				call = fmt.Sprintf("PrintTruncate(%d,%s)", rowArg, name)
 			case "Println":
-				win.Println(rowArg, seg)
-				call = fmt.Sprintf("Println(%d,%s)", rowArg, name)
+				win.Println(rowArg, segs...)
+				call = fmt.Sprintf("Println(%d,%s)", rowArg, call)
 			}
 			w.s.Vx.Render()
 			r.Count("renders", 1)
@@ -573,7 +591,7 @@ func (w *world) textCalls(chain []winSpec, s string, name string) {
 				k++
 			}
 			if okSeq {
-				r.Distinct(explore.Hash("text", h, fmt.Sprint(chain), s, fmt.Sprint(rowArg)))
+				r.Distinct(explore.Hash("text", h, fmt.Sprint(chain), s, fmt.Sprint(rowArg), fmt.Sprint(fi >= len(rows))))
 			}
 		}
 	}
@@ -726,7 +744,7 @@ func main() {
 	n := r.Get("renders")
 	r.Finish(explore.Coverage{
 		States: -1, Transitions: n, Traces: n, Evaluations: n,
-		Rule:       "window chains on a 4x3 screen: depth 1 with offsets {-2,-1,0,1,3,5}^2 x sizes {-1,0,1,2,4,9}^2, depth 2 with {-1,0,1,3}^2 x {-1,1,2,9}^2 per level, depth 3 with {-1,0,1}^2 x {-1,2,9}^2 per level, each level built by New or as a struct literal; per chain: SetCell and SetStyle at every coordinate of [-2,6]x[-2,5] (each with its own marker), SetStyle also over a background of wide glyphs in both alignments (depth <= 2), Fill, Clear; text helpers Print/Wrap/PrintTruncate/Println (rows -1..4) with every string of <= n symbols over {a,世,e+U+0301,SP,TAB,LF} on depth-1 and depth-2 chains; all observed through the reference terminal after Render against a marker-filled screen; distinct = (chain, call family) cases that passed",
+		Rule:       "window chains on a 4x3 screen: depth 1 with offsets {-2,-1,0,1,3,5}^2 x sizes {-1,0,1,2,4,9}^2, depth 2 with {-1,0,1,3}^2 x {-1,1,2,9}^2 per level, depth 3 with {-1,0,1}^2 x {-1,2,9}^2 per level, each level built by New or as a struct literal; per chain: SetCell and SetStyle at every coordinate of [-2,6]x[-2,5] (each with its own marker), SetStyle also over a background of wide glyphs in both alignments (depth <= 2), Fill, Clear; text helpers Print/Wrap/PrintTruncate/Println (rows -1..4) with every string of <= n symbols over {a,世,e+U+0301,SP,TAB,LF} on depth-1 and depth-2 chains, each text of two or more symbols also as one segment per symbol; all observed through the reference terminal after Render against a marker-filled screen; distinct = (chain, call family) cases that passed",
 		Exhaustive: true,
 		Bounds:     map[string]any{"screen": "4x3", "max_string_len": r.Pick(3, 4)},
 		Assumptions: []string{"the clip rectangle is the intersection of the rectangles given by each window's own Column/Row/Width/Height fields (after New's clamping) and the screen",
